@@ -53,10 +53,12 @@ VALUES = {
         'flat': [[1, 2, 3], ['a', 'b'], []],
         'nested': [[1, [2, {'k': 'v'}]], [{'a': None}]],
         'unicode': [['ż', '😀', 'q"uote', 'a,b']],
+        'floats': [[0.1, 2.5], [1.5, [0.25, {'f': 1e-7}]]],
     },
     'object': {
         'flat': [{'k': 1}, {}, {'a': 'b', 'c': True}],
         'nested': [{'k': [1, 2, {'z': None}]}, {'ż': {'😀': 'x\ny'}}],
+        'floats': [{'f': 0.5, 'g': [1.25, -0.1]}],
     },
 }
 
